@@ -424,7 +424,7 @@ def call_ext(interp, ext, node, args, kwargs, st):
         if a0 is not None and a0.obj is not None:
             interp.newobj += 1
             from .values import ObjRef
-            o = ObjRef(a0.obj.cls, f"new#{interp.newobj}")
+            o = ObjRef(a0.obj.cls, f"new#copy{interp.newobj}")
             return Val(kind="obj", obj=o, dim=TOP, deps=deps, born=t, tags=frozenset(["deepcopy"]))
         return a0.copy(al=frozenset(), born=t) if a0 is not None else Val()
 
